@@ -166,6 +166,40 @@ def run(tier, seed, build=True):
         # plain baselines
         basekeys = sorted({(c[0], c[1], c[5], tuple(c[6])) for c in cases})
 
+        # ---- a content whose size needs all four bytes of a 32-bit size field (gzip ISIZE, lz4 content size): 16 MiB + 4097 bytes
+        bigsz = 0x01001001
+        nl = bigsz // 64 - 1
+        blines = [gen.ts0(1000 * (E + i)) + b" big %07d " % i + b"." * 25 + b"\n" for i in range(nl)]
+        assert all(len(x) == 64 for x in blines[:3])
+        bigdata = b"".join(blines)
+        bigdata += gen.ts0(1000 * (E + nl)) + b" " + b"z" * (bigsz - len(bigdata) - 27) + b"\n"
+        assert len(bigdata) == bigsz
+        bdir = os.path.join(work, "big16m")
+        common.write_file(os.path.join(bdir, "t.log"), bigdata)
+        bigvars = [("gz-l1", "t.log.gz", gen.gz(bigdata, 1))]
+        if tier == "thorough":
+            bigvars += [("bz2", "t.log.bz2", gen.bz(bigdata, 1)), ("xz", "t.log.xz", gen.xz(bigdata, 0)),
+                        ("lz4-cs", "t.log.lz4", gen.lz4_frame(bigdata, 4 << 20, content_size=True)), ("tar", "t.tar", gen.tar([("t.log", bigdata)]))]
+        y, m, d, h, mi, s_ = gen.civil(E + nl - 5)
+        latearg = "%04d%02d%02dT%02d%02d%02d" % (y, m, d, h, mi, s_)
+        for w in ([], ["-a", latearg]):
+            rp = common.run_s4(["--color", "never", "-t", "+00:00"] + w + ["t.log"], cwd=bdir, timeout=300)
+            if rp.timed_out or rp.rc not in (0, 1) or not rp.out:
+                raise common.MachineryError("plain baseline of the 16 MiB content failed: rc=%s" % rp.rc)
+            for vlabel, fname, blob in bigvars:
+                common.write_file(os.path.join(bdir, vlabel, fname), blob)
+                r = common.run_s4(["--color", "never", "-t", "+00:00"] + w + [fname], cwd=os.path.join(bdir, vlabel), timeout=300)
+                res.count()
+                res.distinct(("big16m", vlabel, tuple(w)))
+                if r.timed_out or r.rc not in (0, 1) or r.out != rp.out:
+                    res.violation({"content": "text-16MiB+4097", "container": vlabel, "symptom": "crash" if (r.timed_out or r.rc not in (0, 1)) else ("empty" if not r.out else "bytes-differ"),
+                                   "window": bool(w)},
+                                  "a %d-byte log stored as %s prints %d bytes, the plain file %d bytes (window %s)" % (bigsz, fname, len(r.out), len(rp.out), w),
+                                  {"engine": "E-CLI", "args": ["--color", "never", "-t", "+00:00"] + w + [fname], "content": "text-16MiB+4097", "container": vlabel})
+                os.remove(os.path.join(bdir, vlabel, fname))
+        shutil.rmtree(bdir, ignore_errors=True)
+        del bigdata, blines
+
         def run_plain(k):
             clabel, pname, bsz, w = k
             r = common.run_s4(["--color", "never", "-t", "+00:00", "--blocksz", str(bsz)] + list(w) + [pname], cwd=os.path.join(work, clabel), timeout=120)
